@@ -187,13 +187,14 @@ type LockTable struct {
 	seq    int64
 	held   map[int64][]string          // goroutine -> keys in acquisition order
 	byInst map[string]map[*LockShim]bool
+	waiting map[string]int // instance -> lock / try-lock calls that have not returned yet
 	Events []LockEvent
 	Edges  map[string]int // "held -> acquired" edge counts
 }
 
 // NewLockTable .
 func NewLockTable() *LockTable {
-	return &LockTable{held: map[int64][]string{}, byInst: map[string]map[*LockShim]bool{}, Edges: map[string]int{}}
+	return &LockTable{held: map[int64][]string{}, byInst: map[string]map[*LockShim]bool{}, waiting: map[string]int{}, Edges: map[string]int{}}
 }
 
 // Reset clears events and edges (held sets are kept).
@@ -223,6 +224,20 @@ func (t *LockTable) HeldCount() int {
 	n := 0
 	for _, m := range t.byInst {
 		n += len(m)
+	}
+	return n
+}
+
+// WaitingCount returns the number of lock / try-lock calls of live instances that have not returned yet: somebody
+// queued behind a lock is work in progress even while no boundary call is in flight and the lock is changing hands.
+func (t *LockTable) WaitingCount(dead func(inst string) bool) int {
+	t.mu.Lock()
+	defer t.mu.Unlock()
+	n := 0
+	for inst, k := range t.waiting {
+		if dead == nil || !dead(inst) {
+			n += k
+		}
 	}
 	return n
 }
@@ -265,6 +280,7 @@ func (l *LockShim) attempt(op string) int64 {
 	for _, h := range held {
 		t.Edges[h+" -> "+l.Key]++
 	}
+	t.waiting[l.Inst]++
 	t.mu.Unlock()
 	return g
 }
@@ -273,6 +289,7 @@ func (l *LockShim) result(g int64, ok bool) {
 	t := l.T
 	t.mu.Lock()
 	t.seq++
+	t.waiting[l.Inst]--
 	op := "failed"
 	if ok {
 		op = "acquired"
